@@ -1,0 +1,14 @@
+//go:build verif
+
+package jsonrpc
+
+// Verification hook (build tag "verif"): the address the server actually listens on, so that a
+// harness can start it on port 0.  Read-only.
+
+// VerifC16Addr returns the listener's address ("" if the server is not started).
+func (s *Server) VerifC16Addr() string {
+	if s.listener == nil {
+		return ""
+	}
+	return s.listener.Addr().String()
+}
